@@ -261,7 +261,26 @@ def prog():
     backend.prove()
     return out
 """, {"a": lambda c: SymInt(z3.Int("s_a"))}),
+        "inconsistent_calls": ("""
+def prog():
+    @subqap("chk")
+    def chk(v, deep):
+        return v * v * v if deep else v * v
+    x = PrivVal(a)
+    y = chk(x, False)
+    z = chk(y, True)
+    out = z.val()
+    backend.prove()
+    return out
+""", {"a": lambda c: SymInt(z3.Int("s_a"))}),
     }
+
+    def configs(self, tier):
+        return [dict(program=k, **({"raises_only": True} if k == "inconsistent_calls" else {})) for k in self.PROGRAMS]
+
+    def raises(self, c):
+        # calls of one named function with different equation sets must be reported at proving time
+        return [(ValueError, c.cfg["program"] == "inconsistent_calls")]
 
     def extra(self, c, r, wires, io, eqs, directives):
         p = self.prime
